@@ -446,6 +446,15 @@ fn worker_script(sched: &Arc<Sched>, sh: &Arc<Shared>, ops: &[Value]) {
                     sched.hi(format!(r#""e":"nop","why":"no waker {}""#, w));
                 }
             }
+            "wakectl" => {
+                let wk = sh.wakers.lock().unwrap().remove(&7);
+                if let Some(wk) = wk {
+                    sched.hi(r#""e":"wake_begin","w":7"#.to_string());
+                    wk.wake();
+                    sched.hi(r#""e":"wake_end","w":7"#.to_string());
+                    sh.wakers.lock().unwrap().insert(7, wk);
+                }
+            }
             "send" => {
                 let v = op[1].as_i64().unwrap();
                 let ch = sh.channel.lock().unwrap().clone();
@@ -507,8 +516,28 @@ fn piped_worker(sched: &Arc<Sched>, link: &mut PipedLink<i64, i64>, ops: &[Value
 struct MainState {
     stk: Option<Stakker>,
     guard: Option<ChannelGuard>,
+    gslot: Option<std::rc::Rc<std::cell::RefCell<Option<ChannelGuard>>>>,
     piped: Option<PipedThread<i64, i64>>,
+    pslot: Option<std::rc::Rc<std::cell::RefCell<Option<PipedThread<i64, i64>>>>>,
     next_w: i64,
+}
+
+impl MainState {
+    fn take_piped(&mut self) -> Option<PipedThread<i64, i64>> {
+        if let Some(p) = self.piped.take() {
+            return Some(p);
+        }
+        self.pslot.as_ref().and_then(|s| s.borrow_mut().take())
+    }
+    fn has_piped(&self) -> bool {
+        self.piped.is_some() || self.pslot.as_ref().map(|s| s.borrow().is_some()).unwrap_or(false)
+    }
+    fn take_guard(&mut self) -> Option<ChannelGuard> {
+        if let Some(g) = self.guard.take() {
+            return Some(g);
+        }
+        self.gslot.as_ref().and_then(|s| s.borrow_mut().take())
+    }
 }
 
 fn mk_waker(sched: &Arc<Sched>, s: &mut Stakker, w: i64) -> Waker {
@@ -569,7 +598,7 @@ fn main_op(sched: &Arc<Sched>, sh: &Arc<Shared>, ms: &mut MainState, op: &Value)
         }
         "dropguard" => {
             sched.hi(r#""e":"guard_drop_begin""#.to_string());
-            drop(ms.guard.take());
+            drop(ms.take_guard());
             sched.hi(r#""e":"guard_drop_end""#.to_string());
         }
         "psend" => {
@@ -578,11 +607,18 @@ fn main_op(sched: &Arc<Sched>, sh: &Arc<Shared>, ms: &mut MainState, op: &Value)
                 sched.hi(format!(r#""e":"psend_begin","v":{}"#, v));
                 p.send(v);
                 sched.hi(format!(r#""e":"psend_end","v":{}"#, v));
+            } else if let Some(slot) = ms.pslot.clone() {
+                let mut g = slot.borrow_mut();
+                if let Some(p) = g.as_mut() {
+                    sched.hi(format!(r#""e":"psend_begin","v":{}"#, v));
+                    p.send(v);
+                    sched.hi(format!(r#""e":"psend_end","v":{}"#, v));
+                }
             }
         }
         "pdrop" => {
             sched.hi(r#""e":"pdrop_begin""#.to_string());
-            drop(ms.piped.take());
+            drop(ms.take_piped());
             sched.hi(r#""e":"pdrop_end""#.to_string());
         }
         other => panic!("harness: unknown main op {}", other),
@@ -633,7 +669,9 @@ fn run_case(sched: &Arc<Sched>, case: &Value, idx: usize) {
     let mut ms = MainState {
         stk: Some(Stakker::new(Instant::now())),
         guard: None,
+        gslot: None,
         piped: None,
+        pslot: None,
         next_w: 1000,
     };
     {
@@ -696,14 +734,39 @@ fn run_case(sched: &Arc<Sched>, case: &Value, idx: usize) {
                 fillers.push(s.waker(|_, _| {}));
             }
             std::mem::forget(fillers);
+            let gslot: std::rc::Rc<std::cell::RefCell<Option<ChannelGuard>>> = std::rc::Rc::new(std::cell::RefCell::new(None));
+            if case["ctl"].as_bool().unwrap_or(false) {
+                // control Waker (lower slab index than the channel's): its handler drops the guard
+                let sc0 = sched.clone();
+                let g2 = gslot.clone();
+                let s = ms.stk.as_mut().unwrap();
+                let wk = s.waker(move |_s, deleted| {
+                    sc0.hi(format!(r#""e":"handler","w":7,"deleted":{}"#, deleted));
+                    if !deleted {
+                        sc0.hi(r#""e":"guard_drop_begin""#.to_string());
+                        let g = g2.borrow_mut().take();
+                        drop(g);
+                        sc0.hi(r#""e":"guard_drop_end""#.to_string());
+                    }
+                });
+                sh.wakers.lock().unwrap().insert(7, wk);
+                sched.hi(r#""e":"setup","wakers":[7],"fillers":0"#.to_string());
+            }
             let sc = sched.clone();
             let fwd = Fwd::new(move |v: i64| {
                 sc.hi(format!(r#""e":"fwd","v":{}"#, v));
+                // user code: its return is a scheduling point
+                sc.yield_want(Want::Step);
             });
             let s = ms.stk.as_mut().unwrap();
             let (ch, guard) = Channel::new(s, fwd);
             *sh.channel.lock().unwrap() = Some(ch);
-            ms.guard = Some(guard);
+            if case["ctl"].as_bool().unwrap_or(false) {
+                *gslot.borrow_mut() = Some(guard);
+                ms.gslot = Some(gslot);
+            } else {
+                ms.guard = Some(guard);
+            }
             sched.hi(r#""e":"setup_channel""#.to_string());
         }
         "piped" => {
@@ -718,8 +781,22 @@ fn run_case(sched: &Arc<Sched>, case: &Value, idx: usize) {
             }
             let sc1 = sched.clone();
             let sc2 = sched.clone();
+            let echo = case["echo"].as_bool().unwrap_or(false);
+            let pslot: std::rc::Rc<std::cell::RefCell<Option<PipedThread<i64, i64>>>> =
+                std::rc::Rc::new(std::cell::RefCell::new(None));
+            let pslot2 = pslot.clone();
             let fwd_recv = Fwd::new(move |v: i64| {
                 sc1.hi(format!(r#""e":"precv","v":{}"#, v));
+                sc1.yield_want(Want::Step);
+                if echo {
+                    // a synchronous handler that talks back to the worker
+                    let mut g = pslot2.borrow_mut();
+                    if let Some(p) = g.as_mut() {
+                        sc1.hi(format!(r#""e":"psend_begin","v":{}"#, v + 1000));
+                        p.send(v + 1000);
+                        sc1.hi(format!(r#""e":"psend_end","v":{}"#, v + 1000));
+                    }
+                }
             });
             let fwd_term = Fwd::new(move |p: Option<String>| {
                 sc2.hi(format!(
@@ -727,6 +804,7 @@ fn run_case(sched: &Arc<Sched>, case: &Value, idx: usize) {
                     p.is_some(),
                     p.unwrap_or_default()
                 ));
+                sc2.yield_want(Want::Step);
             });
             let ops = threads.first().cloned().unwrap_or_default();
             let sc3 = sched.clone();
@@ -735,7 +813,12 @@ fn run_case(sched: &Arc<Sched>, case: &Value, idx: usize) {
             let p = PipedThread::spawn(fwd_recv, fwd_term, s, move |link| {
                 piped_worker(&sc3, link, &ops);
             });
-            ms.piped = Some(p);
+            if echo {
+                *pslot.borrow_mut() = Some(p);
+                ms.pslot = Some(pslot);
+            } else {
+                ms.piped = Some(p);
+            }
         }
         other => panic!("harness: unknown kind {}", other),
     }
@@ -768,10 +851,10 @@ fn run_case(sched: &Arc<Sched>, case: &Value, idx: usize) {
     }
     // Let every other thread finish; a worker blocked in recv() needs the
     // PipedThread to be dropped first
-    if kind == "piped" && ms.piped.is_some() && case["autodrop"].as_bool().unwrap_or(true) {
+    if kind == "piped" && ms.has_piped() && case["autodrop"].as_bool().unwrap_or(true) {
         sched.yield_want(Want::Step);
         sched.hi(r#""e":"pdrop_begin""#.to_string());
-        drop(ms.piped.take());
+        drop(ms.take_piped());
         sched.hi(r#""e":"pdrop_end""#.to_string());
     }
     sched.yield_want(Want::Join);
@@ -789,8 +872,8 @@ fn run_case(sched: &Arc<Sched>, case: &Value, idx: usize) {
         let _ = h.join();
     }
     // teardown (outside the property's scope, but must not crash)
-    drop(ms.guard.take());
-    drop(ms.piped.take());
+    drop(ms.take_guard());
+    drop(ms.take_piped());
     let mut ws: Vec<(i64, Waker)> = sh.wakers.lock().unwrap().drain().collect();
     ws.sort_by_key(|x| x.0);
     for (w, wk) in ws {
